@@ -138,6 +138,63 @@ async fn client_queued_case() -> Result<(), String> {
     Ok(())
 }
 
+/// C11 / C16: a call is abandoned at the very moment its reply arrives (the reply is read before the cancellation
+/// is processed); later the call's deadline passes. Nothing may be left behind that fires then: the dispatch keeps
+/// running and serves a further call.
+async fn client_abandoned_then_answered_case() -> Result<(), String> {
+    let what = "client: call (deadline in 300 ms) abandoned just as its reply arrives, then the deadline passes";
+    let (tx, mut rx): (ClientEnd, ServerEnd) = transport::channel::unbounded();
+    let client::NewClient { client, dispatch } = client::new::<String, String, _>(client::Config::default(), tx);
+    let dispatch = tokio::spawn(dispatch);
+    let mut ctx = context::current();
+    ctx.deadline = Instant::now() + Duration::from_millis(300);
+    let c = client.clone();
+    let mut call: std::pin::Pin<Box<dyn std::future::Future<Output = Result<String, RpcError>>>> = Box::pin(async move { c.call(ctx, "first".to_string()).await });
+    if futures::poll!(call.as_mut()).is_ready() {
+        return Err(format!("C05 {what}: the call resolved before anything happened"));
+    }
+    settle().await;
+    let id = match rx.next().now_or_never() {
+        Some(Some(Ok(ClientMessage::Request(r)))) => r.id,
+        _ => return Err(format!("C05 {what}: the request was not transmitted")),
+    };
+    rx.send(Response { request_id: id, message: Ok("reply".to_string()) }).await.map_err(|e| e.to_string())?;
+    drop(call); // abandoned before the dispatch gets to run again
+    settle().await;
+    let t0 = tokio::time::Instant::now();
+    advance_to(t0, Duration::from_millis(400)).await;
+    if dispatch.is_finished() {
+        let r = dispatch.await;
+        return Err(format!("C16 {what}: the dispatch ended ({})", match r { Err(e) if e.is_panic() => "it panicked".to_string(), other => format!("{other:?}") }));
+    }
+    let mut ctx2 = context::current();
+    ctx2.deadline = Instant::now() + Duration::from_secs(60);
+    let c2 = client.clone();
+    let second = tokio::spawn(async move { c2.call(ctx2, "second".to_string()).await });
+    settle().await;
+    loop {
+        match rx.next().now_or_never() {
+            Some(Some(Ok(ClientMessage::Request(r)))) => {
+                rx.send(Response { request_id: r.id, message: Ok("reply 2".to_string()) }).await.map_err(|e| e.to_string())?;
+                break;
+            }
+            Some(Some(Ok(_))) => continue, // the cancellation of the first call
+            _ => return Err(format!("C16 {what}: a further call was not transmitted")),
+        }
+    }
+    settle().await;
+    if !second.is_finished() {
+        return Err(format!("C16 {what}: a further call is not served"));
+    }
+    match second.await.map_err(|e| e.to_string())? {
+        Ok(b) if b == "reply 2" => {}
+        other => return Err(format!("C16 {what}: a further call resolved with {other:?}")),
+    }
+    drop(client);
+    dispatch.abort();
+    Ok(())
+}
+
 struct Flag(Arc<AtomicBool>);
 impl Drop for Flag {
     fn drop(&mut self) {
@@ -252,9 +309,13 @@ async fn deadlines_enforced_and_never_early() {
     if let Err(e) = client_queued_case().await {
         failures.push(e);
     }
-    println!("VERIF-BOUNDED deadlines evaluations={evaluations} bound=4 deadlines x (3 reply times | 3 handler finish times x 2 channel stacks) + 1 queued-before-transmission scenario");
+    evaluations += 1;
+    if let Err(e) = client_abandoned_then_answered_case().await {
+        failures.push(e);
+    }
+    println!("VERIF-BOUNDED deadlines evaluations={evaluations} bound=4 deadlines x (3 reply times | 3 handler finish times x 2 channel stacks) + 1 queued-before-transmission scenario + 1 abandoned-as-the-reply-arrives scenario");
     let mut kept: Vec<String> = vec![];
-    for tag in ["C05", "C06", "C11"] {
+    for tag in ["C05", "C06", "C11", "C16"] {
         kept.extend(failures.iter().filter(|f| f.starts_with(tag)).take(2).cloned());
     }
     for f in &kept {
